@@ -36,7 +36,10 @@ THEOREMS = ["read_sees_one_version", "one_version_per_read_tx", "all_or_nothing_
             "no_process_wide_config_calls", "config_call_table_meaning",
             "read_apis_do_not_write_arguments", "param_write_table_meaning", "param_write_table_anchors",
             "remove_before_delivers_only_to_own", "listener_discipline_pinned", "every_parse_delivers_only_to_own",
-            "pooled_parser_carries_no_collector"]
+            "pooled_parser_carries_no_collector",
+            "no_append_onto_handed_out_slice", "result_append_table_meaning", "result_append_table_anchors",
+            "sorted_scans_keep_their_sort_fields", "sorted_scan_touches_no_earlier_array", "sort_fields_observation",
+            "sorted_shared_answer_is_page_of_the_filtered_rows"]
 TABLE_OBLIGATIONS = ["no_unsynchronised_global_writes (Generated/Globals.lean, regenerated from the package-level vars of zitiql/ast/boltz/objectz)",
                      "global_table_anchors (same table)",
                      "no_shared_mutable_escape (same file: escapes of mutable package-level variables + captured writes of escaping function literals)",
@@ -48,6 +51,8 @@ TABLE_OBLIGATIONS = ["no_unsynchronised_global_writes (Generated/Globals.lean, r
                      "read_apis_do_not_write_arguments (same file: functions that write through slice / map / pointer parameters, by API kind)",
                      "param_write_table_anchors (same table)",
                      "listener_discipline_pinned (same file: what zitiql.parse does with the error listeners of the pooled parser and lexer)",
+                     "no_append_onto_handed_out_slice (same file: functions returning a stored slice x appends onto the result of a call, directly / through a local / through a slice parameter at the call site)",
+                     "result_append_table_anchors (same tables)",
                      "no_process_wide_config_calls (same file: calls into other modules that set process-wide state, assignments to their package variables)"]
 
 RULE = ("mv: seeded random writer histories of 4..17 (quick) / 4..27 (thorough) transactions, each 1-4 operations "
@@ -68,7 +73,7 @@ RULE = ("mv: seeded random writer histories of 4..17 (quick) / 4..27 (thorough) 
         "Round 3: filters on nested elements of two map symbols (tags under ext/meta: site.name, site.zone, owner.name, a.b.c; attrs under "
         "ext/meta/deep: a.b.c, a.x.c, site.name, owner.name), different readers using different nested keys; GetSymbol(A), GetSymbol(B), "
         "A.Eval, B.Eval on one row (I). "
-        "Round 4, sq: rows and history as for cr; 14 filter texts with explicit skip and limit (in [...] over string / int / float "
+        "Round 4, sq: rows and history as for cr; 14 (+8 sorted, round 9) filter texts with explicit skip and limit (in [...] over string / int / float "
         "arrays, between, icontains, set functions, composite set symbol, sub-query with own paging, external + map symbol, negation, "
         "sorting scanner) each parsed ONCE per round and the compiled query run by 3-5 readers released together, 30 (quick) / 100 "
         "(thorough) rounds; recorded and judged as for cr. The parse race scenario also goes through zitiql.ParseWithDebug(true/false), "
@@ -81,10 +86,15 @@ RULE = ("mv: seeded random writer histories of 4..17 (quick) / 4..27 (thorough) 
         "keyword operators — taken from a process-wide counter, so no spelling is ever presented twice; the parse race scenario parses such fresh "
         "spellings too; the debugparse scenario interleaves diagnostic parses with a syntax error, plain parses with a LEXER error (`rank = 1 # b`) "
         "and plain valid parses on 2 Ps with a yield after every parse. "
-        "race: 9 scenarios x 6 goroutines under the race detector + 2 mv + 4 cr cases")
+        "Round 9: sq texts 14-21 are sorted on 1..8 fields (rank / even / ext with nil / name, mixed directions, repeated fields, first field "
+        "never id, explicit skip and limit) so that the slice GetSortFields hands the sorting scanner has every capacity shape of append growth "
+        "(spare slots at 3, 5, 6, 7 fields); O<k> (mv, cr): one parsed query with k sort fields, two callers each append their own element to "
+        "GetSortFields() - answer = both lengths and whether each still holds its own element. "
+        "race: 9 scenarios x 6 goroutines under the race detector + 2 mv + 4 cr + 2 sq cases")
 
 MATCHERS = {}   # no open finding (debug-parse-stale-listener was repaired by 956c2a8)
 REVIEWED_APPENDS = {("boltz", "NewBaseStore", "definition.BasePath")}   # = C18/Globals.lean reviewedAppends
+REVIEWED_RESULT_APPENDS = {("boltz", "NewBaseStore", "GetRootPath")}   # = C18/Globals.lean reviewedResultAppends
 
 
 def _lines(s):
@@ -420,6 +430,13 @@ def _escape_offenders():
     for w in (facts.get("paramWrites") or []):
         if w["api"] == "read":
             res.append({"read_api_writes_through_parameter": w["pkg"] + "." + w["func"], "param": w["param"], "how": w["how"], "at": w["pos"]})
+    stored_getters = {}
+    for g in (facts.get("sliceGetters") or []):
+        stored_getters.setdefault(g["name"], []).append(f'{g["pkg"]}.{g["func"]} returns {g["returns"]} at {g["pos"]}')
+    for r in (facts.get("resultAppends") or []):
+        if r["getter"] in stored_getters and (r["pkg"], r["func"], r["getter"]) not in REVIEWED_RESULT_APPENDS:
+            res.append({"append_onto_slice_handed_out_by_getter": r["getter"], "in": r["pkg"] + "." + r["func"], "via": r.get("via"),
+                        "at": r["pos"], "getter_returns_stored_slice": stored_getters[r["getter"]]})
     for l in (facts.get("listeners") or []):
         need = ["removeBeforeAlways", "addsCollector"] + (["removeAfterDeferred"] if l["recogniser"] == "parser" else [])
         missing = [k for k in need if not l.get(k)]
